@@ -334,6 +334,13 @@ func NewCommitVoteSetFromBytes(bs []byte) module.CommitVoteSet {
 	if err != nil {
 		return nil
 	}
+	for i := range vl.Items {
+		// a signature without recovery id can neither be verified nor be
+		// serialized again (Bytes() and Hash() would panic)
+		if s := vl.Items[i].Signature.Signature; s != nil && !s.HasV() {
+			return nil
+		}
+	}
 	return vl
 }
 
